@@ -20,7 +20,7 @@ UNIT = dict(
             ("R17-select", 1),
             ("sub", "R9-paths", r"tokio::sync::oneshot::channel\(\)", "oneshot_channel(Tracked(tr))", 1),
             ("sub", "R9-paths", r"tokio::time::sleep\b", "sleep", -1),
-            ("sub", "R6-send", r"tx\.send\(result\)", "tx.send(result, Tracked(tr))", 1),
+            ("sub", "R6-send", r"\btx\.send\((\w+)\)", r"tx.send(\1, Tracked(tr))", 1),
             ("R4",), ("R3",), ("R5",),
             ("sub", "R16-local-type", r"let result: Option<Result<S::Response, S::Error>> =", "let result: Option<Result<Res, E>> =", 1),
             ("addarg", ["call"], TR, 2),
